@@ -1155,10 +1155,10 @@ def proc_leg(ctx, quick, rng):
     per_op = {}
     n = 0
     versions = None
-    # only reads are judged: every read edge is replayed behind the shortest history leading to its state
+    # only judged reads produce verdicts: every such edge is replayed behind the shortest history leading to its state
     # (open / rewrite / close edges are covered as steps of those histories and of the walks)
-    todo = [(paths[e["_f"]] + [e], "transition") for e in g.edges if e["op"] == "read"]
-    nw = 60 if quick else 1500
+    todo = [(paths[e["_f"]] + [e], "transition") for e in g.edges if e["op"] == "read" and e["res"]["judged"]]
+    nw = 60 if quick else 500
     for w in range(nw):
         todo.append((g.walk(rng, g.init, 12, weight=lambda x: 1 if x["op"] == "open" else 2), "walk"))
     for pi, (path, what) in enumerate(todo):
@@ -1245,7 +1245,7 @@ def run(ctx):
         "process level: members of an ArFile whose path was rewritten after the object was built are unspecified (executed, not judged); every object built after the last rewrite is judged, whatever was opened or left unclosed before",
     ]
     # 1. design level: the implementation-layer model refines the reference (any history), index exact
-    #    (quick: shared file object at 2 data cells + by-name mode at 1 data cell; thorough: both at 3).
+    #    (quick: shared file object at 2 data cells + by-name mode at 1 data cell; thorough: 3 and 2).
     #    These runs do not feed the replay, so they proceed in a background thread while the LTSs are
     #    emitted and replayed; a failure is re-raised when the thread is joined at the end of run().
     design = {}
@@ -1254,8 +1254,8 @@ def run(ctx):
         try:
             r = ctx.tlc_must_hold("ArMember", "MC_ArMember_quick.cfg" if quick else "MC_ArMember.cfg", workers=8)
             design["states"] = r.distinct
-            if quick:
-                design["states"] += ctx.tlc_must_hold("ArMember", "MC_ArMember_quick_byname.cfg", workers=4).distinct
+            design["states"] += ctx.tlc_must_hold("ArMember", "MC_ArMember_quick_byname.cfg" if quick
+                                                  else "MC_ArMember_byname.cfg", workers=4 if quick else 8).distinct
             negative_control(ctx, "MC_ArMember_quick.cfg", "ClampReadline", ("Refines", "SameResult"))
             # finding control: __iter__ as written refines the reference only with the named deviation
             negative_control(ctx, "MC_ArMember_quick.cfg", "IterSingleLine", ("Refines", "SameResult"))
@@ -1328,7 +1328,7 @@ def run_binding(ctx, quick, rng):
                                     "RlSizes": [-1, 0, 1, 2] + ([] if quick else [4]),
                                     "SeekMax": 3 if quick else 4, "index": {"MaxMembers": 3, "Names": 2, "sizes": [0, 1, 2]},
                                     "impl_layer": ("shared mode: MaxData 2; by-name mode: MaxData 1, SeekMax 2" if quick
-                                                   else "both modes: MaxData 3, SeekMax 4")}
+                                                   else "shared mode: MaxData 3, SeekMax 4; by-name mode: MaxData 2, SeekMax 3")}
     missing = [o for o in ("read", "readn", "readline", "readlinen", "readlines", "seek", "tell", "iter") if not ops_count.get(o)]
     if not nedges or missing:
         raise core.MachineryError("reference LTS incomplete: %d EDGE lines, actions never taken: %r" % (nedges, missing))
@@ -1403,10 +1403,11 @@ def run_binding(ctx, quick, rng):
     phase("process_layer")
 
     # 3a. every transition of the LTS, both opening modes, canonical + random concretizations
-    nconc = 2 if quick else 3
+    nconc = 2
     nwalk, wlen = (6, 16) if quick else (40, 30)
     nwalks = 0
     npaths2 = 0
+    np2 = 0
     nbigk = 0
     ai = 0
     for k, (cells, g) in archives.items():
@@ -1472,9 +1473,10 @@ def run_binding(ctx, quick, rng):
         # 3c. thorough: all paths of depth 2 from the initial state (canonical concretization)
         if not quick and cells and not bad:
             for path in g.all_paths(2):
-                if path[0]["op"] == "iter":
+                np2 += 1
+                if path[0]["op"] == "iter" or np2 % 2:
                     continue
-                mode = modes[npaths2 % 2]
+                mode = modes[(npaths2 + np2 // 2) % 2]
                 npaths2 += 1
                 n_replayed += 1
                 if replay_path(path, concs[0], mode, "path"):
